@@ -74,6 +74,9 @@ query_t::lexer_t::next_token(query_t::lexer_t::token_t::kind_t tok_context)
   case '\'':
   case '"':
   case '/': {
+    // remember where this token starts: the parser goes back there when a
+    // `for' / `since' / `until' clause ends at a keyword
+    prev_arg_i = arg_i;
     string pat;
     char   closing       = *arg_i;
     bool   found_closing = false;
